@@ -32,6 +32,26 @@ class DataDependent(Exception):
     """The code inspects the size of a caller axis (symbol) at run time."""
 
 
+class RaiseSim(Exception):
+    """The interpreted code executes `raise <name>(...)`."""
+
+    def __init__(self, name, lineno=None):
+        Exception.__init__(self, name)
+        self.name = name
+        self.lineno = lineno
+
+
+class AClass:
+    """A project class used as a value (explicit base-class calls, enum
+    members, constructors)."""
+
+    def __init__(self, cls):
+        self.cls = cls
+
+    def __repr__(self):
+        return f"AClass<{self.cls.name}>"
+
+
 class AArr:
     __slots__ = ("shape",)
 
@@ -67,6 +87,13 @@ class AObj:
                 f"dual={self.dual_data}>")
 
 
+class ABool:
+    """A data-dependent truth value (e.g. `(x == 0).any()`)."""
+
+    def __repr__(self):
+        return "ABool"
+
+
 class AScal:
     """An unknown numeric scalar (a value, not a shape quantity)."""
     def __repr__(self):
@@ -86,6 +113,18 @@ def elementwise(*args):
         else:
             raise Unsupported(f"elementwise operand {a!r}")
     return AArr(shp) if any_arr else AScal()
+
+
+def dim_add(d, c):
+    """d + c for a dim that is an int or a symbol with an integer offset
+    ("n", "n-1", "k+2")."""
+    if isinstance(d, int):
+        return d + c
+    import re
+    m = re.match(r"^(.*?)([+-]\d+)?$", d)
+    base, off = m.group(1), int(m.group(2) or 0)
+    off += c
+    return base if off == 0 else f"{base}{off:+d}"
 
 
 def index_array(a, idx):
@@ -148,7 +187,7 @@ def index_array(a, idx):
                 a_e, b_e = lin(i.stop, (1, 0))
                 coef, const = a_e - a_s, b_e - b_s
                 if coef == 1:
-                    out.append(d if const == 0 else f"{d}{const:+d}")
+                    out.append(dim_add(d, const))
                 elif coef == 0:
                     out.append(max(const, 0))
                 else:
@@ -310,6 +349,7 @@ class Interp:
         self.project = None
         self.rel_prefix = {}
         self.ctor_classes = {}      # ctor name -> (ClassInfo, unit_ndims)
+        self.ctor_model = None      # callable(interp, ClassInfo, args, kw)
         # factory helpers of utils/core.py are modelled, not interpreted
         self.factory = {}
         for prefix, t in trees:
@@ -420,20 +460,50 @@ class Interp:
             env[st.target.id] = self.binop(st.op, cur, v)
             return None
         if isinstance(st, ast.If):
-            t = self.truth(self.expr(st.test, env))
+            tv = self.expr(st.test, env)
+            if isinstance(tv, ABool):
+                # a run-time validity guard: one arm only raises -> the
+                # analysis follows the other arm (valid input assumed)
+                b_r, o_r = self.only_raises(st.body), \
+                    self.only_raises(st.orelse)
+                if b_r and not o_r:
+                    return self.block(st.orelse, env)
+                if o_r and not b_r:
+                    return self.block(st.body, env)
+                raise Unsupported(
+                    f"data-dependent branch at line {st.lineno}")
+            t = self.truth(tv)
             return self.block(st.body if t else st.orelse, env)
         if isinstance(st, ast.Pass):
             return None
+        if isinstance(st, ast.Raise):
+            if st.exc is None:
+                raise RaiseSim(env.get("__exc__", "Exception"), st.lineno)
+            x = st.exc.func if isinstance(st.exc, ast.Call) else st.exc
+            if isinstance(x, ast.Name) and x.id in env \
+                    and isinstance(env[x.id], str):
+                raise RaiseSim(env[x.id], st.lineno)   # `raise e`
+            raise RaiseSim(ast.unparse(x).split(".")[-1], st.lineno)
         if isinstance(st, ast.Try):
+            if st.finalbody:
+                raise Unsupported("try/finally")
             try:
                 r = self.block(st.body, env)
                 if r is not None:
                     return r
-            except AttributeErrorSim:
+            except (AttributeErrorSim, RaiseSim) as ex:
+                raised = "AttributeError" if isinstance(
+                    ex, AttributeErrorSim) else ex.name
                 for h in st.handlers:
-                    if h.type is not None and "AttributeError" in \
-                            ast.unparse(h.type):
-                        return self.block(h.body, env)
+                    if self.handler_matches(h, raised):
+                        if h.name:
+                            env[h.name] = raised
+                        old = env.get("__exc__")
+                        env["__exc__"] = raised
+                        try:
+                            return self.block(h.body, env)
+                        finally:
+                            env["__exc__"] = old
                 raise
             return self.block(st.orelse, env) if st.orelse else None
         if isinstance(st, ast.For):
@@ -450,6 +520,18 @@ class Interp:
             return self.block(st.body, env)
         raise Unsupported(f"statement {type(st).__name__} at line "
                           f"{st.lineno}")
+
+    @staticmethod
+    def only_raises(body):
+        if not body:
+            return False
+        last = body[-1]
+        if isinstance(last, ast.Raise):
+            return True
+        if isinstance(last, ast.If) and last.orelse:
+            return Interp.only_raises(last.body) and \
+                Interp.only_raises(last.orelse)
+        return False
 
     def assign(self, t, v, env):
         if isinstance(t, ast.Subscript):
@@ -527,6 +609,9 @@ class Interp:
                 return env[e.id]
             if e.id in GLOBALS:
                 return GLOBALS[e.id]
+            c = self.class_named(e.id)
+            if c is not None:
+                return AClass(c)
             raise Unsupported(f"name {e.id}")
         if isinstance(e, ast.Tuple):
             return tuple(self.expr(x, env) for x in e.elts)
@@ -537,6 +622,8 @@ class Interp:
             if isinstance(e.op, ast.USub) and isinstance(v, int):
                 return -v
             if isinstance(e.op, ast.Not):
+                if isinstance(v, ABool):
+                    return v
                 return not self.truth(v)
             if isinstance(v, (AArr, AScal)) or isinstance(v, float):
                 return v
@@ -573,7 +660,20 @@ class Interp:
                 return AScal()
             if ast.unparse(e) == "np.newaxis":
                 return None
+            if isinstance(e.value, ast.Name) and e.value.id in self.mods \
+                    and e.value.id not in env:
+                c = self.class_in(e.value.id, e.attr)
+                if c is not None:
+                    return AClass(c)
             v = self.expr(e.value, env)
+            if isinstance(v, AClass):
+                if e.attr == "__name__":
+                    return v.cls.name
+                if self.is_enum(v.cls):
+                    return f"{v.cls.name}.{e.attr}"
+                raise Unsupported(f"class attribute {v.cls.name}.{e.attr}")
+            if isinstance(v, AObj) and e.attr == "__class__":
+                return AClass(v.cls)
             if isinstance(v, AObj):
                 if e.attr in ("proj_data", "aux_data", "dual_data",
                               "unit_ndims", "aux_ndims", "dual_ndims"):
@@ -616,6 +716,25 @@ class Interp:
             return self.callexpr(e, env)
         raise Unsupported(f"expression {type(e).__name__}")
 
+    def is_module_path(self, v, env):
+        while isinstance(v, ast.Attribute):
+            v = v.value
+        return isinstance(v, ast.Name) and v.id not in env and (
+            v.id in ("np", "scipy", "math", "itertools", "copy")
+            or (v.id in self.mods and v.id != ""))
+
+    def keywords(self, e, env):
+        kw = {}
+        for k in e.keywords:
+            if k.arg is None:
+                d = self.expr(k.value, env)
+                if not isinstance(d, dict):
+                    raise Unsupported("** of a non-dict")
+                kw.update(d)
+            else:
+                kw[k.arg] = self.expr(k.value, env)
+        return kw
+
     def index(self, sl, env):
         if isinstance(sl, ast.Tuple):
             return tuple(self.index(x, env) for x in sl.elts)
@@ -629,6 +748,56 @@ class Interp:
         if isinstance(sl, ast.Attribute) and ast.unparse(sl) == "np.newaxis":
             return None
         return self.expr(sl, env)
+
+    EXC_BASES = {"AttributeError": (), "TypeError": (), "ValueError": (),
+                 "KeyError": ("LookupError",), "IndexError": ("LookupError",),
+                 "LinAlgError": ("ValueError",)}
+
+    def handler_matches(self, h, raised):
+        if h.type is None:
+            return True
+        names = [ast.unparse(x).split(".")[-1] for x in (
+            h.type.elts if isinstance(h.type, ast.Tuple) else [h.type])]
+        anc = {raised, "Exception", "BaseException"}
+        anc.update(self.EXC_BASES.get(raised, ()))
+        c = self.class_named(raised)
+        if c is not None and self.project is not None:
+            for b in self.project.mro(c):
+                anc.add(b.name)
+            for b in c.node.bases:
+                anc.add(ast.unparse(b).split(".")[-1])
+        return any(n in anc for n in names)
+
+    def class_named(self, name):
+        if self.project is None:
+            return None
+        cache = self.__dict__.setdefault("_class_cache", {})
+        key = (self.stack[-1], name)
+        if key not in cache:
+            found = None
+            rels = [r for r, pre in self.rel_prefix.items()
+                    if pre == self.stack[-1]] + list(self.rel_prefix)
+            for rel in rels:
+                try:
+                    found = self.project.get_class(rel, name)
+                    break
+                except AnalysisError:
+                    continue
+            cache[key] = found
+        return cache[key]
+
+    def class_in(self, prefix, name):
+        for rel, pre in self.rel_prefix.items():
+            if pre == prefix:
+                try:
+                    return self.project.get_class(rel, name)
+                except AnalysisError:
+                    return None
+        return None
+
+    def is_enum(self, cls):
+        return any(ast.unparse(b).split(".")[-1] in ("Enum", "IntEnum")
+                   for b in cls.node.bases)
 
     def find_method(self, obj, name):
         if obj.cls is None or self.project is None:
@@ -663,6 +832,8 @@ class Interp:
             return np_squeeze(a, axis)
         if name in ("astype", "copy", "conjugate"):
             return a
+        if name in ("any", "all") and not args and not kw:
+            return ABool()
         if name == "sort":
             axis = kw.get("axis", args[0] if args else -1)
             _norm_axes(axis, len(a.shape))
@@ -714,19 +885,53 @@ class Interp:
     def callexpr(self, e, env):
         name = ast.unparse(e.func)
         # methods on abstract arrays
-        if isinstance(e.func, ast.Attribute) and not name.startswith(
-                ("np.", "utils.")):
+        if isinstance(e.func, ast.Attribute) and not self.is_module_path(
+                e.func.value, env):
             recv = self.expr(e.func.value, env)
             if isinstance(recv, AObj):
                 margs = [self.expr(a, env) for a in e.args]
-                mkw = {k.arg: self.expr(k.value, env) for k in e.keywords}
+                mkw = self.keywords(e, env)
                 return self.obj_method(recv, e.func.attr, margs, mkw)
             if isinstance(recv, AArr):
                 margs = [self.expr(a, env) for a in e.args]
-                mkw = {k.arg: self.expr(k.value, env) for k in e.keywords}
+                mkw = self.keywords(e, env)
                 return self.method(recv, e.func.attr, margs, mkw)
+            if isinstance(recv, AClass) and not self.is_enum(recv.cls):
+                margs = [self.expr(a, env) for a in e.args]
+                mkw = self.keywords(e, env)
+                f = self.project.find_method(recv.cls, e.func.attr)
+                if f is None:
+                    raise AttributeErrorSim(e.func.attr)
+                self.owner.setdefault(id(f.node),
+                                      self._prefix_of(f.module.rel))
+                if any(ast.unparse(d) in ("staticmethod",)
+                       for d in f.node.decorator_list):
+                    return self.call_node(f.node, margs, mkw)
+                if any(ast.unparse(d) in ("classmethod",)
+                       for d in f.node.decorator_list):
+                    return self.call_node(f.node, [recv] + margs, mkw)
+                return self.call_node(f.node, margs, mkw)
+            if isinstance(recv, str) and e.func.attr == "format":
+                for a in e.args:
+                    self.expr(a, env)
+                return ""
         args = [self.expr(a, env) for a in e.args]
-        kw = {k.arg: self.expr(k.value, env) for k in e.keywords}
+        kw = self.keywords(e, env)
+        fv = None
+        if isinstance(e.func, ast.Name) and e.func.id not in env:
+            c = self.class_named(e.func.id)
+            if c is not None and e.func.id not in self.ctor_classes:
+                fv = AClass(c)
+        elif isinstance(e.func, ast.Attribute) and isinstance(
+                e.func.value, ast.Name) and e.func.value.id in self.mods \
+                and e.func.value.id not in env:
+            c = self.class_in(e.func.value.id, e.func.attr)
+            if c is not None:
+                fv = AClass(c)
+        if fv is not None:
+            if self.ctor_model is None:
+                raise Unsupported(f"constructor {fv.cls.name}")
+            return self.ctor_model(self, fv.cls, args, kw)
         if name in ("copy", "copy.copy") and args \
                 and isinstance(args[0], AObj):
             return args[0].clone()
@@ -829,6 +1034,19 @@ class Interp:
             return AArr(tuple(sh))
         if name == "np.roll":
             return args[0]
+        if name == "np.swapaxes" and isinstance(args[0], AArr):
+            return self.method(args[0], "swapaxes", args[1:], kw)
+        if name == "np.transpose" and isinstance(args[0], AArr) \
+                and len(args) == 1 and not kw:
+            return AArr(tuple(reversed(args[0].shape)))
+        if name == "np.delete" and isinstance(args[0], AArr):
+            axis = kw.get("axis", args[2] if len(args) > 2 else None)
+            if axis is None or not isinstance(args[1], (int, AScal)):
+                raise Unsupported("np.delete without axis / of many entries")
+            ax = _norm_axes(axis, len(args[0].shape))[0]
+            sh = list(args[0].shape)
+            sh[ax] = dim_add(sh[ax], -1)
+            return AArr(tuple(sh))
         if name in ("np.argsort", "np.sort", "np.flip", "np.copy",
                     "np.cumsum", "utils.invert", "np.linalg.inv"):
             if "axis" in kw and isinstance(args[0], AArr):
